@@ -2,6 +2,14 @@
 #[path = "../../../tests/unit/construction/heuristics/context_test.rs"]
 mod context_test;
 
+#[cfg(reinterpretcat_vrp_verif)]
+#[path = "verif_hooks.rs"]
+mod verif_hooks;
+#[cfg(reinterpretcat_vrp_verif)]
+pub use self::verif_hooks::{VerifInsertionObserver, verif_set_insertion_observer};
+#[cfg(reinterpretcat_vrp_verif)]
+pub(crate) use self::verif_hooks::verif_notify_insertion;
+
 use crate::construction::enablers::{TotalDistanceTourState, TotalDurationTourState};
 use crate::construction::heuristics::factories::*;
 use crate::models::GoalContext;
@@ -241,6 +249,8 @@ impl SolutionState {
 
     /// Sets the value to solution state using the key type provided.
     pub fn set_value<K: 'static, V: 'static + Sync + Send>(&mut self, value: V) {
+        #[cfg(reinterpretcat_vrp_verif)]
+        verif_hooks::verif_note_key::<K>();
         self.index.insert(TypeId::of::<K>(), Arc::new(value));
     }
 }
@@ -354,6 +364,8 @@ impl RouteState {
 
     /// Sets the value associated with the tour using `K` type as a key.
     pub fn set_tour_state<K: 'static, V: Send + Sync + 'static>(&mut self, value: V) {
+        #[cfg(reinterpretcat_vrp_verif)]
+        verif_hooks::verif_note_key::<K>();
         self.index.insert(TypeId::of::<K>(), Arc::new(value));
     }
 
@@ -378,6 +390,8 @@ impl RouteState {
 
     /// Adds values associated with activities.
     pub fn set_activity_states<K: 'static, V: Send + Sync + 'static>(&mut self, values: Vec<V>) {
+        #[cfg(reinterpretcat_vrp_verif)]
+        verif_hooks::verif_note_key::<K>();
         self.index.insert(TypeId::of::<K>(), Arc::new(values));
     }
 
